@@ -130,7 +130,8 @@ def gen_code_doc(rng) -> str:
 
 SPANS = ["`a  b`", "`` ` ``", "``` `` ```", "`'q' \"d\" it's...`", "`{% x %}`", "<span class=\"a  b\" title='it...s'>", "<b>", "{% tag a=\"x\"  b='y' %}", "{{ v | f('a') }}",
          "{# it's \"c\"... #}", "<!-- 'c' ... -->", "<http://ex.com/a_b?c='d'>", "http://bare.url/it's...x", "[t](http://ex.com/a_(b)_c \"T 'q'...\")", "[t](</u v> 'it...s')",
-         "![a](i.png \"x...y\")", "[t][r 1]", "[r 1]", "[t](/u2)", "[t](/u2 \"Other\")", "[t](/u2 \"Title two\")", "note[^n]", "\\*", "\\.", "1\\.", "\\_x\\_", "a\\.b"]
+         "![a](i.png \"x...y\")", "[t][r 1]", "[r 1]", "[t](/u2)", "[t](/u2 \"Other\")", "[t](/u2 \"Title two\")", "note[^n]", "\\*", "\\.", "1\\.", "\\_x\\_", "a\\.b",
+         "[t](a\\\\*b)", "[t](<a\\> b>)", "[t](C:\\dir\\f)", "[t](\\<a)", "[t](a\\)b)", "[t](/p 't\\\\')", "[t](/p \"a\\\\*b\")", "![i](<a\\\\>)"]
 REFS = "\n\n[r2]: /u2 \"Title two\"\n[r 1]: http://ex.com/q?a=\"b\"...c \"T 'q' it's...\"\n\n[^n]: foot 'note'..."
 
 
@@ -199,6 +200,9 @@ def run(chk: Check) -> None:
         return
     rng = chk.rng
     n = 1 if tier == "quick" else 10
+    import readspec
+    readspec.validate_all(chk, 800 * n)
+    readspec.ports_inline(chk, 1500 * n)
     docs = [gen_code_doc(rng) for _ in range(200 * n)] + [gen_indented_code_doc(rng) for _ in range(150 * n)] + [gen_span_doc(rng) for _ in range(250 * n)]
     gen_docs.AVOID = set(c02.AVOID_MAIN)
     docs += [gen_docs.gen_doc(rng) for _ in range(150 * n)]
